@@ -22,6 +22,11 @@ func main() {
 			os.Exit(3)
 		}()
 	}
+	if pf := os.Getenv("SYMGO_CPUPROFILE"); pf != "" {
+		f, _ := os.Create(pf)
+		pprof.StartCPUProfile(f)
+		defer pprof.StopCPUProfile()
+	}
 	if len(os.Args) < 2 {
 		fmt.Fprintln(os.Stderr, "usage: symgo selftest | check <ID> [quick|thorough] | replay <file>")
 		os.Exit(2)
@@ -43,7 +48,9 @@ func main() {
 		if s := os.Getenv("VERIF_SEED"); s != "" {
 			fmt.Sscan(s, &seed)
 		}
-		os.Exit(hx.RunCheck(os.Args[2], tier, seed))
+		code := hx.RunCheck(os.Args[2], tier, seed)
+		pprof.StopCPUProfile()
+		os.Exit(code)
 	default:
 		fmt.Fprintln(os.Stderr, "unknown command", os.Args[1])
 		os.Exit(2)
